@@ -22,7 +22,8 @@ From PV Require Import Common.Cases C10.Spec.
 Import ListNotations.
 
 (* which protocols (ranks) registered a push updater / a keyboard instance *)
-Record cfg := { regs : list nat; kregs : list nat }.
+(* sraise: protocols whose push updater's stop() raises (fault while tearing the protocol down) *)
+Record cfg := { regs : list nat; kregs : list nat; sraise : list nat }.
 
 Inductive qitem :=
   | QPlay (p s : nat)      (* FacadePushUpdater.playstatus_update(updater p, s) *)
@@ -60,6 +61,14 @@ Definition main_of (r : list nat) (t : option nat) : option nat :=
 
 Definition set_lis_all (r : list nat) (f : nat -> bool) (b : bool) : nat -> bool :=
   fun q => if memb q r then b else f q.
+
+(* FacadePushUpdater.stop: for instance in self.instances: instance.listener = None; instance.stop()
+   - the loop ends at the first stop() that raises; the flag says whether it ran to the end *)
+Fixpoint stop_all (bad r : list nat) (f : nat -> bool) : (nat -> bool) * bool :=
+  match r with
+  | [] => (f, true)
+  | p :: t => if memb p bad then (upd f p false, false) else stop_all bad t (upd f p false)
+  end.
 
 Definition enqueue (s : st) (q : qitem) : st :=
   {| prev := prev s; lis := lis s; fwd := fwd s; take := take s; ktake := ktake s;
@@ -130,10 +139,16 @@ Definition step (c : cfg) (s : st) (o : op) : st * list out * res :=
       else (set_push s (set_lis_all (regs c) (lis s) true) true false, [], ROk)
   | Stop =>
       if blocked s then (s, [], RBlocked)
-      else (set_push s (set_lis_all (regs c) (lis s) false) false false, [], ROk)
+      else                                        (* _forward_updates = False comes first *)
+        let '(l, ok) := stop_all (sraise c) (regs c) (lis s) in
+        (set_push s l false false, [], if ok then ROk else RRaise)
   | Close =>
       if blocked s then (s, [], ROk)              (* _pending_tasks is set: returns at once *)
-      else (set_push s (set_lis_all (regs c) (lis s) false) false true, [], ROk)
+      else
+        let '(l, ok) := stop_all (sraise c) (regs c) (lis s) in
+        if ok then (set_push s l false true, [], ROk)
+        else (set_push s l false false, [], RRaise)   (* push_updater.stop() raised: close() is aborted
+                                                         before anything else is torn down or blocked *)
   | Take p l => let '(s', r) := takeover s p l [] in (s', [], r)
   | Rel l => (fold_left (fun a j => put_take a j None) l s, [], ROk)
   | DispVol p v => (enqueue s (QVol v), [], ROk)
